@@ -1477,3 +1477,17 @@ Lemma statement_call_tokens ec id args st fd :
 Proof.
   intros H. cbn [sstep]. rewrite H. destruct (exec_args_o ec args _) as [[vs st1]| | |]; reflexivity.
 Qed.
+
+(* ---- the pipeline: what run_script computes is the meaning of the lexed program ---- *)
+Definition cfg_after_lex (ls : slex) : mcfg := mkCfg (ss_song (state_after_lex ls)) (sl_scopes ls).
+Lemma wf_after_lex ls : wf (cfg_after_lex ls).
+Proof. reflexivity. Qed.
+
+Theorem run_script_sem src toks ls :
+  lex_script src = Ok (toks, ls) -> ft_ok (sl_funcs ls) = true -> toks_ok toks = true ->
+  sem ML (funs_of (sl_funcs ls)) DEPTH (prog_of toks) (cfg_after_lex ls) <> Stuck ->
+  run_script src = out_state (sl_funcs ls) false (sem ML (funs_of (sl_funcs ls)) DEPTH (prog_of toks) (cfg_after_lex ls)).
+Proof.
+  intros Hl Hft Hok Hns. unfold run_script. rewrite Hl. cbn [Base.bind].
+  exact (proj1 (exec_vs_sem (sl_funcs ls) Hft DEPTH toks false (cfg_after_lex ls) (wf_after_lex ls) Hok Hns)).
+Qed.
